@@ -587,7 +587,8 @@ def serveStep (x : SrvSt) : M (Step SrvSt (Sock × List Req)) :=
     let rs ← read x.s
     let r := rs.1
     let s := rs.2
-    if s.err != 0 || r.method.length == 0 || r.path.length == 0 || r.proto.length == 0 then
+    -- `client.error() || client.handle() < 0 || !method.ok() || !path.ok() || !protocol.ok()`: drop, no dispatch
+    if s.err != 0 || s.closed || r.method.length == 0 || r.path.length == 0 || r.proto.length == 0 then
       pure (.done (s, x.acc.reverse))
     else
       let ans := respond r s
